@@ -32,9 +32,6 @@ ALL_PEERS = ['127.0.0.2', '127.0.0.3', '127.0.0.4', '127.0.0.5']
 STRANGER = '127.0.0.8'        # has rows in the peers tables but was never discovered by the driver
 POLL = 0.2
 T = lambda k: (k,)
-SCHEMA_PEERS_V2_COLS = [('host_id', T('uuid')), ('peer', T('inet')), ('peer_port', T('int')), ('native_address', T('inet')),
-                        ('native_port', T('int')), ('schema_version', T('uuid'))]
-SCHEMA_PEERS_COLS = [('peer', T('inet')), ('host_id', T('uuid')), ('rpc_address', T('inet')), ('schema_version', T('uuid'))]
 KEYSPACE_COLS = [('keyspace_name', T('text')), ('durable_writes', T('boolean')), ('replication', ('map', T('text'), T('text')))]
 
 
@@ -75,8 +72,12 @@ def run_history(seed):
     known = set([CONTROL] + peers)
     ch = W.RandomChooser(random.Random(seed * 13 + 5), p_time=0.0, p_preempt=rng.choice([0.0, 0.0, 0.1]))
     env = SimEnv(ch, addresses=addrs)
-    if with_stranger:
-        env.net.hidden_peers.add(STRANGER)
+    # native ports: with system.peers_v2 every peer advertises its own (often non-default) native_port and is a host (address, port) for the
+    # driver; the legacy table has no port column.  (The sim net routes connections by address, which is all that is needed here.)
+    port_of = dict((a, rng.choice([9042, 9043, 19042, 9142]) if (v2 and a != CONTROL) else 9042) for a in addrs)
+    net_state = {'stranger_joined': False}      # the stranger joins the ring only after the driver has discovered the cluster
+    import re
+    PEERS_SELECT = re.compile(r"select (.+?) from system\.(peers_v2|peers)\b")
     VERS = [uuid.UUID(int=0xA0 + i) for i in range(4)]
     ep = {'active': False}
     hosts_by_addr = {}
@@ -95,6 +96,28 @@ def run_history(seed):
             if h is not None:
                 h.is_up = {'up': True, 'down': False, 'unknown': None}[st]
 
+    def peers_answer(node, cstate, req, pm, snap):
+        """rows of system.peers_v2 / system.peers as this node sees them, projected on the columns the SELECT asks for"""
+        table = pm.group(2)
+        all_cols = N.PEERS_V2_COLS if table == 'peers_v2' else N.PEERS_COLS
+        types = dict(all_cols)
+        names = [n for n, _t in all_cols] if pm.group(1).strip() == '*' else [c.strip() for c in pm.group(1).split(',')]
+        for n in names:
+            if n not in types:
+                return node.error(cstate, req, 'invalid', 'Undefined column name %s' % n), []
+        rows, served = [], []
+        for a in addrs:
+            if a == node.address or (a == STRANGER and not net_state['stranger_joined']):
+                continue
+            info = env.net.nodes[a].info
+            ab = N.ip_bytes(a)
+            ver = snap['versions'][a] if snap is not None else info.schema_version
+            full = {'peer': ab, 'peer_port': 7000, 'native_address': ab, 'native_port': port_of[a], 'rpc_address': ab, 'host_id': info.host_id,
+                    'data_center': info.dc, 'rack': info.rack, 'schema_version': ver, 'tokens': list(info.tokens), 'release_version': info.release}
+            rows.append([full[n] for n in names])
+            served.append((a, ver))
+        return node.rows(cstate, req, [(n, types[n]) for n in names], rows, 'system', table), served
+
     def behaviour(node, cstate, req):
         if req['op'] != 'QUERY':
             return None
@@ -106,12 +129,15 @@ def run_history(seed):
         if q.startswith('create keyspace') and uid_of(req['query']) is not None:
             ep.setdefault('ddl_nodes', []).append(node.address)
             return node.reply(cstate, req, 'RESULT', F.body_result_schema_change(req['version'], 'CREATED', 'KEYSPACE', 'ks%d' % uid_of(req['query'])))
-        if not ep['active']:
-            return None
-        is_peers = q.startswith('select host_id, peer, peer_port, native_address, native_port, schema_version from system.peers_v2') or \
-            q.startswith('select peer, host_id, rpc_address, schema_version from system.peers')
+        pm = PEERS_SELECT.match(q)
+        if pm and pm.group(2) == 'peers_v2' and not v2:
+            return None                                  # default: unconfigured table
+        if pm and not (ep['active'] and pm.group(1) != '*' and 'schema_version' in pm.group(1)):
+            # any other read of the peers tables (node list at connect ...): the same rows, projected on the SELECT list
+            return peers_answer(node, cstate, req, pm, None)[0]
+        is_peers = bool(pm)
         is_local = q.startswith("select schema_version from system.local where key='local'")
-        if not (is_peers or is_local):
+        if not ep['active'] or not (is_peers or is_local):
             return None
         idx, snap = snapshot_now()
         apply_states(snap)
@@ -126,20 +152,10 @@ def run_history(seed):
             ep['fault_state'] = 2
             return node.error(cstate, req, 'server', 'scripted failure of the schema poll') if fault == 'error' else ('silence',)
         if is_peers:
-            rows, served = [], []
-            for a in addrs:
-                if a == node.address:
-                    continue
-                ab = N.ip_bytes(a)
-                ver = snap['versions'][a]
-                served.append((a, ver))
-                hid = env.net.nodes[a].info.host_id
-                rows.append([hid, ab, 7000, ab, 9042, ver] if 'peers_v2' in q else [ab, hid, ab, ver])
+            reaction, served = peers_answer(node, cstate, req, pm, snap)
             ep['polls'].append({'t': env.world.now, 'node': node.address, 'snap': idx, 'rows': served, 'states': dict(snap['states']),
                                 'local': 'pending'})
-            if 'peers_v2' in q:
-                return node.rows(cstate, req, SCHEMA_PEERS_V2_COLS, rows, 'system', 'peers_v2')
-            return node.rows(cstate, req, SCHEMA_PEERS_COLS, rows, 'system', 'peers')
+            return reaction
         poll = ep['polls'][-1] if ep['polls'] else None
         if poll is None or poll['local'] != 'pending' or poll['node'] != node.address:
             ep['torn'] = True
@@ -189,7 +205,7 @@ def run_history(seed):
              'polls_with_down_peer_differing': 0, 'polls_with_unknown_peer_differing': 0, 'polls_with_stranger_differing': 0,
              'polls_without_any_version': 0, 'agreement_after_budget': 0, 'agreement_on_later_poll': 0,
              'ddl_fault': 0, 'ddl_timeout': 0, 'faults_fired': 0, 'faults_fired_reset': 0, 'timeouts_fired_while_polling': 0,
-             'cut_short_without_any_agreeing_poll': 0}
+             'cut_short_without_any_agreeing_poll': 0, 'polls_decided_by_peer_on_non_default_port': 0}
     ep_log = []
     with env:
         cluster = env.cluster(protocol_version=proto)
@@ -198,8 +214,10 @@ def run_history(seed):
         with env.world.inspect():
             for h in cluster.metadata.all_hosts():
                 hosts_by_addr[h.endpoint.address] = h
-            if set(hosts_by_addr) != known:
-                raise RuntimeError("discovered hosts %r, expected %r" % (sorted(hosts_by_addr), sorted(known)))
+            if set(hosts_by_addr) != known or any(h.endpoint.port != port_of[a] for a, h in hosts_by_addr.items()):
+                raise RuntimeError("discovered hosts %r, expected %r" % (sorted(str(h.endpoint) for h in hosts_by_addr.values()),
+                                                                         sorted((a, port_of[a]) for a in known)))
+        net_state['stranger_joined'] = True
         neps = rng.randint(3, 6)
         for e in range(neps):
             mode = rng.choice(['direct', 'direct-default', 'ddl-on', 'ddl-off', 'ddl-timeout'])
@@ -313,6 +331,9 @@ def run_history(seed):
                     stats['polls_with_stranger_differing'] += 1
                 if not ref:
                     stats['polls_without_any_version'] += 1
+                default_port_only = {'local': p['local'], 'states': p['states'], 'rows': [(a, v) for a, v in p['rows'] if port_of[a] == 9042]}
+                if (len(poll_versions(default_port_only, known)) == 1) != (len(ref) == 1):
+                    stats['polls_decided_by_peer_on_non_default_port'] += 1
             expected = any(agreed)
             wit = {'seed': seed, 'episode': e, 'mode': mode, 'budget': budget, 'proto': proto, 'peers_v2': v2, 'known_hosts': sorted(known),
                    'verdict': verdict, 'returned_after': round(t_ret - t0, 6),
@@ -420,7 +441,8 @@ def run(ctx):
                      ("episodes_ddl_with_poll_fault", 'ddl_fault'), ("episodes_ddl_with_client_timeout", 'ddl_timeout'),
                      ("poll_faults_fired", 'faults_fired'), ("poll_faults_fired_connection_reset", 'faults_fired_reset'),
                      ("client_timeouts_fired_while_polling", 'timeouts_fired_while_polling'),
-                     ("ddl_cut_short_without_any_agreeing_poll", 'cut_short_without_any_agreeing_poll')):
+                     ("ddl_cut_short_without_any_agreeing_poll", 'cut_short_without_any_agreeing_poll'),
+                     ("polls_decided_by_peer_on_non_default_native_port", 'polls_decided_by_peer_on_non_default_port')):
             ctx.count(k, stats[v])
         seen = set()
         for mech, what, wit in viol:
@@ -438,4 +460,4 @@ def run(ctx):
                           "polls_where_a_host_not_in_metadata_differs": 50, "polls_without_any_counting_version": 20,
                           "episodes_agreement_only_after_budget": 30, "episodes_agreement_on_a_later_poll": 50,
                           "poll_faults_fired": 60, "poll_faults_fired_connection_reset": 10, "client_timeouts_fired_while_polling": 60,
-                          "ddl_cut_short_without_any_agreeing_poll": 100}
+                          "ddl_cut_short_without_any_agreeing_poll": 100, "polls_decided_by_peer_on_non_default_native_port": 100}
